@@ -59,6 +59,7 @@ package server
 import (
 	"bytes"
 	"context"
+	"crypto/sha256"
 	"encoding/json"
 	"fmt"
 	"net"
@@ -250,14 +251,14 @@ func c12lHistoryString(h []c12lOp) string {
 	return "[" + strings.Join(s, " ; ") + "]"
 }
 
-func c12lAlphabet() []c12lOp {
+func c12lAlphabet(wide bool) []c12lOp {
 	var out []c12lOp
 	streams := []int{0, 1}
-	if vreport.Thorough() {
+	if wide {
 		streams = []int{0, 1, 2}
 	}
 	for i, name := range c12lNames {
-		if i > 0 && !vreport.Thorough() {
+		if i > 0 && !wide {
 			// quick: the second name only has to show that the two names do not
 			// disturb each other
 			out = append(out,
@@ -280,7 +281,7 @@ func c12lAlphabet() []c12lOp {
 		out = append(out, c12lOp{Kind: "delete", Name: name})
 		for _, addr := range []string{"A", "B"} {
 			out = append(out, c12lOp{Kind: "set-notls", Name: name, Addr: addr, Net: 2, Stream: 1, Misc: 1})
-			if vreport.Thorough() {
+			if wide {
 				out = append(out, c12lOp{Kind: "set-notls", Name: name, Addr: addr, Net: 1, Stream: 0, Misc: 0})
 			}
 		}
@@ -1064,11 +1065,24 @@ var c12lIdleRelated = map[string]bool{
 
 const c12lTaintNote = " [after a rejected update of this listener]"
 
+// quick:    the narrow alphabet to depth 3
+// thorough: the narrow alphabet to depth 5 and the wide alphabet to depth 3
 func TestVerifC12Listeners(t *testing.T) {
-	p := vreport.Begin("C12", c12lPartName, time.Duration(vreport.Pick(3, 30))*time.Minute)
+	c12lBFS(t, c12lPartName, false, vreport.Pick(3, 5))
+	if vreport.Thorough() || vreport.Replaying() {
+		c12lBFS(t, c12lPartName+"-wide", true, 3)
+	}
+}
+
+func c12lStateKey(r *c12lRun) string {
+	h := sha256.Sum256([]byte(r.after.key() + "\x1d" + r.model.key()))
+	return string(h[:])
+}
+
+func c12lBFS(t *testing.T, part string, wide bool, depth int) {
+	p := vreport.Begin("C12", part, time.Duration(vreport.Pick(3, 30))*time.Minute)
 	c12lSetup()
-	depth := vreport.Pick(3, 4)
-	alphabet := c12lAlphabet()
+	alphabet := c12lAlphabet(wide)
 
 	seen := map[string]bool{}
 	var stateOf string
@@ -1207,7 +1221,7 @@ func TestVerifC12Listeners(t *testing.T) {
 			p.Violation("listeners appear under names nobody added", fmt.Sprintf("%s: %s", hist, r.after.Extra), c)
 		}
 
-		key := r.after.key() + "\x1d" + r.model.key()
+		key := c12lStateKey(r)
 		stateOf = key
 		if seen[key] {
 			return
@@ -1249,7 +1263,7 @@ func TestVerifC12Listeners(t *testing.T) {
 				harness(c, err.Error())
 				return
 			}
-			if r2.stop != "" || r2.after.key()+"\x1d"+r2.model.key() != key {
+			if r2.stop != "" || c12lStateKey(r2) != key {
 				harness(c, "replaying the history twice gives two different states (world reset incomplete?)")
 				return
 			}
@@ -1362,7 +1376,7 @@ func TestVerifC12Listeners(t *testing.T) {
 	// the initial (empty) state
 	if !vreport.Replaying() {
 		if r0, err := c12lReplay(nil); err == nil && r0.after != nil {
-			seen[r0.after.key()+"\x1d"+r0.model.key()] = true
+			seen[c12lStateKey(r0)] = true
 		}
 	}
 	complete := vreport.Run(p, gen, check)
@@ -1378,11 +1392,11 @@ func TestVerifC12Listeners(t *testing.T) {
 		p.Note("listener_starts_requested_by_the_adapter", atomic.LoadInt64(&c12lStarts))
 	}
 	second := "the full alphabet for both names"
-	if !vreport.Thorough() {
+	if !wide {
 		second = "the second name reduced to 3 configurations (one with the other address), delete and tls-without-certificate"
 	}
 	p.End(complete,
 		fmt.Sprintf("breadth-first search over histories of ListenerAdapter.AddOrUpdateListener / DeleteListener (default server, as the admin API and xDS call them) on a never-started server.NewServer, depth %d, alphabet of %d operations: per listener name {address A,B x network filter configuration P1,P2 x stream filters %v x 2 settings of the remaining fields (type, bind_port, read buffer size, idle timeout | inspector, original dst, match, listener filters); delete; tls on without certificate; two filter chains}, %s; dumps (config_dump view, InheritMosnconfig) after every history, DumpJSON on every new state",
-			depth, len(alphabet), map[bool]string{false: "{none,[s1]}", true: "{none,[s1],[s2,s1]}"}[vreport.Thorough()], second),
+			depth, len(alphabet), map[bool]string{false: "{none,[s1]}", true: "{none,[s1],[s2,s1]}"}[wide], second),
 		"every successor = the history replayed on a fresh world (configmanager.Reset, stream filter manager emptied, ResetAdapter, server.NewServer) plus one operation; states merged on the per-name projection (lookups, stored configuration, listener object, instantiated network/listener/stream filter chains, tls manager, live idle timeout, effective-configuration entry, dumped entry, hidden activeListener fields) plus the reference model's state; compared on every transition: acceptance/rejection against the documented rules, (1) every field against the model 'last accepted configuration, non-updatable fields from the add', (3) absent names are absent from lookups, effective configuration and dump, (4) a rejected operation leaves every field of both names unchanged; on every NEW state (they are functions of the state): dumps are read-only and DumpJSON agrees with the config_dump view, (2) equality with a fresh world given only the final configurations, (5) equality with a fresh server loaded from InheritMosnconfig's output via ParseListenerConfig+AddListener, plus a replay-twice self-check of the reset (states that are expanded). The idle timeout is the one field the code treats both ways (live value follows the update, stored value stays): the model accepts the add's or the last update's value provided one of the two explains the stored, live, effective and dumped values together. Not compared: the stream filter manager entry of a name without listener, the number of Start calls (asynchronous), configmanager's write-only per-listener factory maps. Not in the alphabet: access logs, udp/unix listeners, unnamed listeners, valid tls contexts (C13), buffer limit / tag (not in the JSON form), several servers")
 }
